@@ -37,7 +37,7 @@ creations and updates: `RegOK` is preserved by every operation (Halo.Props.C16W.
 theorem record_eq_pair_forever {name : Asset → String} {w w' : World} {op : Op} {out : Out}
     (hr : RegOK w) (hraw : RawOK w)
     (hactor : ∀ s p f m, op = .pair s p f m → s ≠ w.facAddr)
-    (hfresh : ∀ s f a0 a1 req c np nl, op = .factory s f (.createPair a0 a1 req c np nl) → w.pair np = none)
+    (hfresh : ∀ s f a0 a1 req c ld np nl, op = .factory s f (.createPair a0 a1 req c ld np nl) → w.pair np = none)
     (h : exec name w op = .ok (w', out)) : ∀ e ∈ w'.registry, recMatches w' e.2 :=
   (Halo.RegOKP.regOK_step hr hraw hactor hfresh h).matched
 
